@@ -43,6 +43,14 @@ type B7 struct {
 	Q    *zoo.Inner
 }
 
+// B8 has fields whose names differ in the first letter only.
+type B8 struct {
+	Host string
+	Post string
+	X    int32
+	Y    int32
+}
+
 // B6 embeds a struct: the wire may carry (flat, Java-style) fields named like the promoted fields.
 type B6 struct {
 	zoo.Base
@@ -57,6 +65,7 @@ func bindingTargets() []interface{} {
 		&B3{A: 13, S: "s3", F: true},
 		&B4{In: zoo.Inner{A: 5, S: "in"}, A: 14, L: []string{"l1", "l2"}, S: "s4"},
 		&B5{M: map[string]int32{"k": 7}, P: &B5{A: 99, S: "p"}, A: 15, L: []string{"x"}, S: "s5"},
+		&B8{Host: "h", Post: "p", X: 1, Y: 2},
 	}
 }
 
@@ -122,7 +131,7 @@ func extraForms() []struct {
 		{"long 1-octet", rh.LongV(3)}, {"long 2-octet", rh.LongV(-2000)}, {"long 3-octet", rh.LongV(200000)}, {"long 5-octet", rh.LongV(3000000)}, {"long 9-octet negative", rh.LongV(-(1 << 50))},
 		{"double zero", rh.DoubleV(0)}, {"double one", rh.DoubleV(1)}, {"double byte", rh.DoubleV(100)}, {"double short", rh.DoubleV(30000)}, {"double 9-octet", rh.DoubleV(0.1)},
 		{"bool false", rh.BoolV(false)}, {"date in minutes", rh.DateV(1577934240000)},
-		{"empty string", rh.StringV("")}, {"string of 40 chars", rh.StringV(strings.Repeat("m", 40))}, {"string of 1100 chars", rh.StringV(strings.Repeat("l", 1100))}, {"string in three chunks", rh.StringV(strings.Repeat("é", 70000))},
+		{"empty string", rh.StringV("")}, {"short non-ASCII string", rh.StringV("héé")}, {"short 4-byte string", rh.StringV("a😀b😀")}, {"40 CJK chars", rh.StringV(strings.Repeat("中", 40))}, {"1000 2-byte chars", rh.StringV(strings.Repeat("é", 1000))}, {"string of 40 chars", rh.StringV(strings.Repeat("m", 40))}, {"string of 1100 chars", rh.StringV(strings.Repeat("l", 1100))}, {"string in three chunks", rh.StringV(strings.Repeat("é", 70000))},
 		{"empty binary", rh.BinaryV([]byte{})}, {"binary of 20 octets", rh.BinaryV(make([]byte, 20))}, {"binary of 1100 octets", rh.BinaryV(make([]byte, 1100))}, {"binary in chunks", rh.BinaryV(make([]byte, 70000))},
 		{"empty list", &rh.Value{K: rh.List}}, {"empty map", &rh.Value{K: rh.Map}},
 		{"typed map", &rh.Value{K: rh.Map, Typed: true, Type: "com.example.M", Elems: []*rh.Value{rh.IntV(1), rh.StringV("v")}}},
@@ -298,6 +307,59 @@ func init() {
 					c.Cover("extra-forms")
 				}})
 			}
+			// two unknown fields in one definition, every pair of core payloads at every pair of positions
+			for _, tv := range bindingTargets() {
+				tv := tv
+				n := reflect.TypeOf(tv).Elem().NumField()
+				us = append(us, core.Unit{Name: fmt.Sprintf("two-unknown:%s", tname(tv)), Cost: n * n * 5, Run: func(c *core.Ctx) {
+					tm, nm, _ := Maps(tv)
+					nExtra := len(extraValues(nil))
+					for p1 := 0; p1 <= n; p1++ {
+						for p2 := p1; p2 <= n; p2++ {
+							for e1 := 0; e1 < nExtra; e1++ {
+								for e2 := 0; e2 < nExtra; e2++ {
+									if !c.Begin() {
+										continue
+									}
+									c.NontrivialN(1)
+									c.Res.States++
+									c.Res.Transitions++
+									obj := zoo.NewDenoter(nm).Denote(tv)
+									wire := &rh.Value{K: rh.Object, Class: &rh.Class{Name: obj.Class.Name}}
+									evs := extraValues(wire)
+									for i := 0; i <= n; i++ {
+										if i == p1 {
+											wire.Class.Fields = append(wire.Class.Fields, "zzFirst")
+											wire.Elems = append(wire.Elems, evs[e1].v)
+										}
+										if i == p2 {
+											wire.Class.Fields = append(wire.Class.Fields, "zzSecond")
+											v2 := evs[e2].v
+											if e1 == e2 && v2 != wire {
+												v2 = extraValues(wire)[e2].v // a second copy, not the same node
+											}
+											wire.Elems = append(wire.Elems, v2)
+										}
+										if i < n {
+											wire.Class.Fields = append(wire.Class.Fields, obj.Class.Fields[i])
+											wire.Elems = append(wire.Elems, obj.Elems[i])
+										}
+									}
+									e := rh.NewEncoder(nil)
+									e.Top(wire)
+									desc := fmt.Sprintf("%s with unknown fields holding %s at wire position %d and %s at %d", tname(tv), evs[e1].name, p1, evs[e2].name, p2)
+									if _, err := rh.ParseOne(e.Out); err != nil {
+										c.Report(&core.Violation{Stage: "selfcheck", Kind: "harness", Shape: "R1", Message: err.Error(), Case: desc})
+										continue
+									}
+									c.Outcome(decodeAgainst(c, e.Out, tv, tm, nm, desc, "defs two-unknown", nil))
+								}
+							}
+						}
+					}
+					c.Cover("two-unknown")
+				}})
+			}
 			// an unknown field holds an instance of a registered class and a LATER known field refers back to it
 			us = append(us, core.Unit{Name: "unknown-field-target-of-later-ref", Cost: 5, Run: func(c *core.Ctx) {
 				type holder = B7
@@ -433,7 +495,7 @@ func init() {
 			return us
 		},
 		RequireCover: func(string) []string {
-			return []string{"extra-forms", "defs:B1", "defs:B5", "defs:B6", "positions:hoist=true", "positions:hoist=false", "extra:unknown-class object", "extra:ref to the object itself", "extra:map", "extra:null", "extra:registered-class object", "unknown-field-target"}
+			return []string{"extra-forms", "two-unknown", "defs:B1", "defs:B5", "defs:B6", "positions:hoist=true", "positions:hoist=false", "extra:unknown-class object", "extra:ref to the object itself", "extra:map", "extra:null", "extra:registered-class object", "unknown-field-target"}
 		},
 	})
 }
